@@ -139,3 +139,233 @@ def list_provenance(prog, f, listname, afs):
             else:
                 problems.append((c, "unexpected configuration expression %s" % astq.text(x)))
     return fams, dests, problems, n_app
+
+
+# ------------------------------------------------------------- manifest filter
+def _is_manifest(n):
+    return isinstance(n, ast.Attribute) and n.attr == "manifest" and isinstance(n.value, ast.Name) and n.value.id == "options"
+
+
+_STRIPS = {"strip", "rstrip"}
+_STR2STR = {"strip", "rstrip", "lstrip", "lower", "upper", "replace", "expandtabs"}
+
+
+def manifest_filter(ctx, R, tool):
+    """How are the ids listed in the manifest matched against the work map?  Abstract kinds of
+    manifest-derived values: TEXT (the whole file as one str), LINE (one raw line, newline attached),
+    ID (a stripped line), LINES / IDS (collections of those).  An id may be excluded only by hash /
+    equality membership against IDs: `in` on TEXT is a substring test, and raw LINEs never equal an id."""
+    env = {}
+
+    def kind(e, loc=None):
+        loc = loc or {}
+        if _is_manifest(e):
+            return "FILE"
+        if isinstance(e, ast.Name):
+            return loc.get(e.id, env.get(e.id))
+        if isinstance(e, ast.Call) and isinstance(e.func, ast.Attribute):
+            k = kind(e.func.value, loc)
+            a = e.func.attr
+            if k == "FILE":
+                return {"read": "TEXT", "readlines": "LINES", "readline": "LINE"}.get(a, "UNKNOWN")
+            if k == "LINE":
+                if a in _STRIPS:
+                    return "ID"
+                return "UNKNOWN" if a in _STR2STR or a in ("split",) else "UNKNOWN"
+            if k == "ID":
+                return "ID" if a in ("strip", "rstrip", "lstrip") else "UNKNOWN"
+            if k == "TEXT":
+                if a in ("split", "splitlines"):
+                    return "IDS"
+                return "TEXT" if a in _STR2STR else "UNKNOWN"
+            if k in ("IDS", "LINES"):
+                return k if a in ("copy", "union", "keys") else "UNKNOWN"
+            if k is None and a == "join" and e.args and kind(e.args[0], loc) in ("LINES", "IDS", "FILE"):
+                return "TEXT"
+            return None if k is None else "UNKNOWN"
+        if isinstance(e, ast.Call) and isinstance(e.func, ast.Name) and e.func.id in ("set", "list", "tuple", "frozenset", "sorted") and len(e.args) == 1:
+            k = kind(e.args[0], loc)
+            return {"FILE": "LINES", "IDS": "IDS", "LINES": "LINES"}.get(k, None if k is None else "UNKNOWN")
+        if isinstance(e, ast.Call) and isinstance(e.func, ast.Name) and e.func.id == "map" and len(e.args) == 2:
+            k = kind(e.args[1], loc)
+            if k in ("FILE", "LINES") and astq.text(e.args[0]) in ("str.strip", "str.rstrip"):
+                return "IDS"
+            return None if k is None else "UNKNOWN"
+        if isinstance(e, (ast.SetComp, ast.ListComp, ast.GeneratorExp)):
+            l2 = dict(loc)
+            derived = False
+            for g in e.generators:
+                k = kind(g.iter, l2)
+                ek = {"FILE": "LINE", "LINES": "LINE", "IDS": "ID"}.get(k)
+                if k is not None:
+                    derived = True
+                for t in ast.walk(g.target):
+                    if isinstance(t, ast.Name):
+                        l2[t.id] = ek if isinstance(g.target, ast.Name) else None
+            if not derived:
+                return None
+            k = kind(e.elt, l2)
+            return {"ID": "IDS", "LINE": "LINES"}.get(k, "UNKNOWN")
+        if isinstance(e, ast.Subscript):
+            k = kind(e.value, loc)
+            if k == "LINE" and astq.text(e.slice) == ":-1":
+                return "ID"
+            return None if k is None else "UNKNOWN"
+        if isinstance(e, ast.BinOp):
+            ks = {kind(e.left, loc), kind(e.right, loc)} - {None}
+            return None if not ks else "UNKNOWN"
+        return None
+
+    def bind(n):
+        if isinstance(n, ast.For):
+            k = kind(n.iter)
+            for t in ast.walk(n.target):
+                if isinstance(t, ast.Name):
+                    env[t.id] = {"FILE": "LINE", "LINES": "LINE", "IDS": "ID"}.get(k, None if k is None else "UNKNOWN") if isinstance(n.target, ast.Name) else None
+        elif isinstance(n, ast.Expr) and isinstance(n.value, ast.Call) and isinstance(n.value.func, ast.Attribute) and \
+                isinstance(n.value.func.value, ast.Name) and n.value.func.attr in ("update", "add", "extend", "append") and len(n.value.args) == 1:
+            k = kind(n.value.args[0])
+            if k is not None:
+                nk = {"IDS": "IDS", "ID": "IDS", "LINES": "LINES", "LINE": "LINES", "FILE": "LINES"}.get(k, "UNKNOWN")
+                prev = env.get(n.value.func.value.id)
+                env[n.value.func.value.id] = nk if prev in (None, nk) else "UNKNOWN"
+        elif isinstance(n, ast.Assign):
+            k = kind(n.value)
+            for tt in n.targets:
+                for t in astq.flatten_targets(tt):
+                    if isinstance(t, ast.Name):
+                        env[t.id] = k if len(n.targets) == 1 and isinstance(n.targets[0], ast.Name) else (None if k is None else "UNKNOWN")
+
+    WHY = {
+        "TEXT": "the whole manifest as one string, so `in` is a substring test: an unfinished utterance whose id occurs inside a finished "
+                "one (utt1 / utt10) is dropped and never computed",
+        "LINE": "a raw manifest line with its newline attached, which never equals an utterance id: nothing is ever excluded",
+        "LINES": "raw manifest lines with their newlines attached, which never equal an utterance id: nothing is ever excluded",
+    }
+    sites = 0
+    pm = astq.parents(tool)
+
+    def local_env(node):
+        loc = {}
+        for a in reversed(list(astq.ancestors(pm, node))):
+            if isinstance(a, (ast.SetComp, ast.ListComp, ast.GeneratorExp, ast.DictComp)):
+                for g in a.generators:
+                    k = kind(g.iter, loc)
+                    for t in ast.walk(g.target):
+                        if isinstance(t, ast.Name):
+                            loc[t.id] = {"FILE": "LINE", "LINES": "LINE", "IDS": "ID"}.get(k) if isinstance(g.target, ast.Name) else None
+        return loc
+
+    def visit(n):
+        nonlocal sites
+        if isinstance(n, ast.Call) and isinstance(n.func, ast.Attribute) and n.func.attr in ("pop", "discard", "remove", "__delitem__") and n.args:
+            k = kind(n.args[0], local_env(n))
+            if k is None:
+                return
+            sites += 1
+            if k == "UNKNOWN":
+                raise AnalysisError("%s: cannot classify the manifest-derived key in `%s`" % (R, astq.text(n)[:80]))
+            ctx.check(k == "ID", R, tool, astq.enclosing_stmt(pm, n), "ids are removed from the work map by exact key (a stripped manifest line)",
+                      "the key removed from the work map is %s" % WHY.get(k, k))
+        elif isinstance(n, ast.Delete):
+            for t in n.targets:
+                if isinstance(t, ast.Subscript):
+                    k = kind(t.slice, local_env(n))
+                    if k is None:
+                        continue
+                    sites += 1
+                    ctx.check(k == "ID", R, tool, n, "ids are removed from the work map by exact key", "the key deleted is %s" % WHY.get(k, k))
+        elif isinstance(n, ast.Compare):
+            loc = local_env(n)
+            ks = [kind(x, loc) for x in [n.left] + list(n.comparators)]
+            if all(k is None or k == "FILE" for k in ks):
+                return
+            if all(isinstance(o, (ast.Is, ast.IsNot)) for o in n.ops):
+                return
+            sites += 1
+            if len(n.ops) == 1 and isinstance(n.ops[0], (ast.In, ast.NotIn)):
+                k = ks[1]
+                if k == "UNKNOWN" or k is None:
+                    raise AnalysisError("%s: cannot classify the manifest-derived operand of `%s`" % (R, astq.text(n)[:80]))
+                ctx.check(k == "IDS" and ks[0] in (None, "ID"), R, tool, astq.enclosing_stmt(pm, n),
+                          "membership of an id in the manifest is decided by equality against the set of stripped lines",
+                          "`%s` tests membership in %s" % (astq.text(n), WHY.get(k, k)))
+            elif len(n.ops) == 1 and isinstance(n.ops[0], (ast.Eq, ast.NotEq)):
+                bad = [k for k in ks if k not in (None, "ID")]
+                if "UNKNOWN" in bad:
+                    raise AnalysisError("%s: cannot classify `%s`" % (R, astq.text(n)[:80]))
+                ctx.check(not bad, R, tool, astq.enclosing_stmt(pm, n), "ids are compared with stripped manifest lines",
+                          "`%s` compares an id with %s" % (astq.text(n), WHY.get(bad[0], bad[0]) if bad else ""))
+            else:
+                raise AnalysisError("%s: unrecognised comparison with manifest data `%s`" % (R, astq.text(n)[:80]))
+        elif isinstance(n, ast.Call) and isinstance(n.func, ast.Attribute) and n.func.attr in ("startswith", "endswith", "find", "index", "count") and n.args:
+            loc = local_env(n)
+            if kind(n.args[0], loc) is not None or kind(n.func.value, loc) not in (None, "FILE"):
+                sites += 1
+                ctx.bad(R, tool, astq.enclosing_stmt(pm, n), "`%s` matches ids against the manifest by prefix / substring instead of equality: "
+                        "an unfinished utterance whose id is related to a finished one is dropped" % astq.text(n)[:80], "exact matching")
+
+    def seq(stmts):
+        for st in stmts:
+            for x in header_walk(st):
+                visit(x)
+            bind(st)
+            for fld in ("body", "orelse", "finalbody"):
+                sub = getattr(st, fld, None)
+                if isinstance(sub, list) and sub and isinstance(sub[0], ast.stmt) and not isinstance(st, (ast.FunctionDef, ast.ClassDef)):
+                    seq(sub)
+            for h in getattr(st, "handlers", []) or []:
+                seq(h.body)
+
+    seq(tool.node.body)
+    if sites == 0:
+        raise AnalysisError("%s: no site found where manifest ids are matched against the work map" % R)
+    ctx.floor(R, sites, 1)
+
+
+# ------------------------------------------------------------------- base seed
+def base_seed(ctx, R, tool, ds_cls):
+    """The base seed handed to the dataset is --seed whenever one is given (0 included)."""
+    prog = ctx.prog
+    init = prog.own_method(ds_cls, "__init__")
+    sites = [c for c in astq.func_calls(tool) if prog.resolve(tool.module, c.func, tool) is ds_cls]
+    if len(sites) != 1:
+        raise AnalysisError("%s: construction site of the dataset not found" % R)
+    site = sites[0]
+    actual = dict(zip(init.params[1:], site.args))
+    actual.update({k.arg: k.value for k in site.keywords if k.arg})
+    a = actual.get("seed")
+    if a is None:
+        raise AnalysisError("%s: the dataset is not given a `seed` argument" % R)
+    pm = astq.parents(tool)
+    ev = SymEval(prog, tool).run()
+    st = astq.enclosing_stmt(pm, site)
+    if not ev.reached(st):
+        raise AnalysisError("%s: dataset construction not reached by forward substitution" % R)
+    e = ev.eval_at(st, a)
+    # read attributes of the parsed options as symbols options.<name>
+    opts = ev.eval_at(st, ast.parse("options", mode="eval").body)
+    sub = {}
+    for x in S.walk(e):
+        if x.op == "call" and isinstance(x.args[0], str) and x.args[0].startswith(".") and len(x.args) == 2 and x.args[1] == opts:
+            sub[x] = S.sym("options" + x.args[0])
+    e = S.subst(e, sub) if sub else e
+    opt = S.sym("options.seed")
+    n = 0
+    for tests, leaf in strip_cond(e):
+        given = None
+        for lbl, t in tests:
+            if t.op == "cmp" and t.args[0] in ("is", "is not") and t.args[1] == opt and t.args[2] == S.NONE:
+                given = (lbl == "F") if t.args[0] == "is" else (lbl == "T")
+        n += 1
+        if given is False:
+            continue  # no seed given: anything goes
+        uses_truth = [x for x in S.walk(leaf) if x.op in ("or", "and") and opt in x.args] or \
+            [t for lbl, t in tests if t == opt or (t.op in ("bool", "not") and t.args[0] == opt)]
+        if uses_truth:
+            ctx.bad(R, tool, st, "the base seed is %s: `--seed 0` is falsy and is treated as if no seed were given, so every invocation draws a fresh "
+                    "random base seed and two runs (or a resumed run) differ" % S.show(leaf)[:80], "the base seed is --seed whenever it is given")
+            continue
+        ctx.check(leaf == opt, R, tool, st, "the base seed is --seed whenever it is given (0 included)",
+                  "with --seed given the dataset's base seed is %s, not options.seed" % S.show(leaf)[:100])
+    ctx.floor(R, n, 1)
